@@ -120,7 +120,14 @@ pub fn check_round(c: &RoundCase) -> Verdict {
     });
     ensure!(v, gs == c.new_scale, "C06/scale", "with_scale_round({}, {}) returned scale {}", c.new_scale, mode.name(), gs);
     ensure!(v, gi == want, "C06/value", "with_scale_round({}e{}, scale {}, {}) = {} expected {}", c.d.int, -c.d.scale, c.new_scale, mode.name(), gi, want);
-    if mode == bdoracle::Mode::Down {
+    // with_scale / to_owned_with_scale divide by 10^(discarded digits): only where that power is of moderate size
+    let discarded = c.d.scale as i128 - c.new_scale as i128;
+    if discarded > 20_000 {
+        v.labels.push("target-far-left(>20000)");
+    } else if discarded < -6 {
+        v.labels.push("extension>6");
+    }
+    if mode == bdoracle::Mode::Down && discarded <= 20_000 {
         let t = x.with_scale(c.new_scale);
         let (ti, ts) = t.as_bigint_and_exponent();
         ensure!(v, ts == c.new_scale && ti == want, "C06/with_scale", "with_scale({}) = {}e{} expected {}e{}", c.new_scale, ti, -ts, want, -c.new_scale);
@@ -197,12 +204,30 @@ fn round_strategy(max_len: usize) -> BoxedStrategy<RoundCase> {
             let digits = if zero == 0 { "0".to_string() } else { gen::digits_of(&spec) };
             let nd = digits.len() as i64;
             // the tie families place their tail at spec.aux-derived cut: aim the target there half of the time
-            let cut = if nd >= 3 { 1 + (spec.aux as i64 % (nd - 2)) } else { 1 };
+            let cut = gen::tail_cut(&spec) as i64;
             let new_scale = match where_ {
                 0..=3 => scale - (nd - cut),             // right at the family's cut (keeps `cut` digits)
                 4 => scale - nd,                         // at the leading digit
-                5 => scale - nd - 1 - off.abs(),         // left of the leading digit
-                6 => scale + off.abs(),                  // extension
+                5 => {
+                    // left of the leading digit: by 1..7 positions, by 8..8000, or by a distance at a truncating-cast
+                    // boundary (2^8, 2^16, 2^31, 2^32 +- a little), far beyond anything that could be materialised
+                    let dist = match pos % 8 {
+                        0..=3 => 1 + off.abs(),
+                        4 | 5 => 8 + (pos / 8) as i64,
+                        6 => [1i64 << 8, 1 << 16, 1 << 31, 1 << 32, 1 << 48][(pos / 8 % 5) as usize] + off,
+                        _ => 1_000_000 + (pos as i64) * 977,
+                    };
+                    scale - nd - dist
+                }
+                6 => {
+                    // extension: by 0..6, by 7..700, or across the power-of-ten algorithm switches at 20 and 590
+                    let ext = match pos % 4 {
+                        0 | 1 => off.abs(),
+                        2 => 7 + (pos / 4 % 700) as i64,
+                        _ => [19i64, 20, 21, 589, 590, 591, 1179, 1180][(pos / 4 % 8) as usize],
+                    };
+                    scale + ext
+                }
                 7 => scale - nd + 1,                     // keep one digit
                 _ => scale - gen::pick_idx(pos, nd as usize + 1) as i64 + off.signum(), // anywhere inside
             };
@@ -292,7 +317,7 @@ pub fn run(ctx: &Ctx) {
         "random-tails",
         "round",
         t.pick(200_000, 10_000_000),
-        "1..max digits; tails: tie 50..0, near-tie 49..9x / 50..01, all nines, dense nines, sparse; targets at the tail cut, at / left of the leading digit, extension, anywhere; zeros; both signs; 7 modes",
+        "1..max digits; tails: tie 50..0, near-tie 49..9x / 50..01, all nines, dense nines, sparse; targets at the tail cut, at / left of the leading digit (by 1..7, 8..8000, 2^8..2^48, 10^6..), extension (0..6, 7..700, 19..21, 589..591, 1179/1180), anywhere; zeros; both signs; 7 modes",
         move || round_strategy(max_len),
         check_round,
     );
